@@ -12,6 +12,7 @@ import (
 	"fmt"
 	"os"
 	"path/filepath"
+	"runtime/debug"
 	"sort"
 	"strings"
 	"syscall"
@@ -79,6 +80,14 @@ type Scenario struct {
 	Mid     map[string]Mid  `json:"mid"`    // step count (as string) -> promise after that many steps
 	Probes  bool            `json:"probes"` // run the end-of-scenario probe battery
 	Cache   int             `json:"cache"`  // if > 0: run with a page cache of this capacity, flushing after every statement
+	Dump    bool            `json:"dump"`   // return the page graph of the end state (C11: TLC evaluates TreeOK on it)
+}
+
+// Graph is the raw page graph of every tree, as the open store sees it.
+type Graph struct {
+	Pages []storage.VerifPage `json:"pages"`
+	Roots []int               `json:"roots"`
+	Names []string            `json:"names"`
 }
 
 type Result struct {
@@ -91,6 +100,7 @@ type Result struct {
 	Kind     string              `json:"kind,omitempty"`
 	Feat     []string            `json:"feat,omitempty"`
 	CacheFul bool                `json:"cachefull,omitempty"`
+	Graph    *Graph              `json:"graph,omitempty"`
 }
 
 type RowOut struct {
@@ -163,6 +173,10 @@ func renderRow(v int) string {
 		return "('x', 'rx')" // wrong type for the INT column
 	case v == -2:
 		return fmt.Sprintf("(7, '%s')", strings.Repeat("z", 450)) // row over the 400 byte limit
+	case v == -3:
+		return "(7)" // column count mismatch
+	case v == -4:
+		return "(3000000000, 'r7')" // INT out of 32 bits
 	}
 	return fmt.Sprintf("(%d, 'r%d')", v, v)
 }
@@ -754,6 +768,15 @@ func replay(sc Scenario) (res Result) {
 			res.OK = false
 			return
 		}
+		if sc.Dump {
+			g, probs := w.graph()
+			res.Graph = g
+			if len(probs) > 0 {
+				res.OK = false
+				res.Viol = append(res.Viol, probs...)
+				return
+			}
+		}
 		// ---- drift: page level
 		if sc.Post != nil && sc.Cache == 0 {
 			res.Drift = driftOf(w, sc.Post)
@@ -847,6 +870,42 @@ func (w *World) probes(obs map[string][]RowOut, out string) []string {
 	return v
 }
 
+// graph projects the page graph of every tree and runs the engine's own lookups over it.
+func (w *World) graph() (*Graph, []string) {
+	rs := w.sess.RelationService
+	h, pages := storage.VerifDumpView(rs)
+	g := &Graph{Pages: pages, Roots: []int{h.PtRoot}, Names: []string{"sys_pages"}}
+	var probs []string
+	roots := storage.VerifRoots(rs, []string{"sys_schema", "t1", "t2", "t3"})
+	for _, n := range []string{"sys_schema", "t1", "t2", "t3"} {
+		r, ok := roots[n]
+		if !ok {
+			continue
+		}
+		g.Roots = append(g.Roots, r)
+		g.Names = append(g.Names, n)
+		missing, fwd, bwd, err := storage.VerifLookupAll(rs, n)
+		if err != nil {
+			probs = append(probs, fmt.Sprintf("table %s: scan/lookup failed: %v", n, err))
+			continue
+		}
+		if len(missing) > 0 {
+			probs = append(probs, fmt.Sprintf("table %s: stored keys %v are not found by point lookup from the root", n, missing))
+		}
+		if len(fwd) != len(bwd) {
+			probs = append(probs, fmt.Sprintf("table %s: forward scan %v, backward scan %v", n, fwd, bwd))
+		} else {
+			for i := range fwd {
+				if fwd[i] != bwd[len(bwd)-1-i] {
+					probs = append(probs, fmt.Sprintf("table %s: backward scan %v is not the reverse of forward scan %v", n, bwd, fwd))
+					break
+				}
+			}
+		}
+	}
+	return g, probs
+}
+
 func driftOf(w *World, post *Post) []string {
 	if w.sess == nil || w.sess.RelationService == nil {
 		return nil
@@ -896,6 +955,7 @@ func driftOf(w *World, post *Post) []string {
 }
 
 func main() {
+	debug.SetMaxStack(16 << 20) // runaway recursion in the code under test should die quickly
 	// the engine prints on every statement: keep the protocol on a private descriptor
 	fd, err := syscall.Dup(1)
 	if err != nil {
@@ -921,9 +981,7 @@ func main() {
 			b, _ := json.Marshal(res)
 			out.Write(b)
 			out.WriteByte('\n')
-		}
-		if in.Buffered() == 0 || err != nil {
-			out.Flush()
+			out.Flush() // every answer at once: if the code under test kills the process, the culprit is the first unanswered request
 		}
 		if err != nil {
 			break
